@@ -664,8 +664,18 @@ def dense_probes(spec, seed, budget=120000, maxlen=16):
                     for j in rnd.sample(range(len(st["c2"])), min(len(st["c2"]), 3)):
                         if (i, j) not in nz:
                             cells.append((i, j))
+                in2 = {g for c in st["c2"] for g in c}
+                out2 = [g for g in range(1, spec["n"]) if g not in in2][:4000]
                 for i, j in cells:
+                    if j is None:  # class-0 column
+                        if out2:
+                            seqs.append([rnd.choice(st["c1"][i]), rnd.choice(out2)])
+                        continue
                     seqs.append([rnd.choice(st["c1"][i]), rnd.choice(st["c2"][j])])
+                for g, i in st.get("cd1_extra", []):
+                    row = [j for (i2, j) in nz if i2 == i and j is not None]
+                    if row:
+                        seqs.append([g, rnd.choice(st["c2"][rnd.choice(row)])])
                 # every member of every first class once (ClassDef1 / Coverage of the pieces), every member of every second class once
                 some_j = list(range(len(st["c2"])))
                 for i, c in enumerate(st["c1"]):
